@@ -302,12 +302,33 @@ _TRACED = (_real_os.sep + "tracklib" + _real_os.sep + "io" + _real_os.sep,
            _real_os.sep + "tracklib" + _real_os.sep + "core" + _real_os.sep + "obs_time.py")
 
 
+_SETTERS = ("setPrintFormat", "setReadFormat")
+_SETTER_CALLS = ("ObsTime.setPrintFormat(", "ObsTime.setReadFormat(")
+
+
 class Interrupter:
     def __init__(self, plan):
         self.plan = plan
 
+    @staticmethod
+    def _eligible(frame):
+        """No code can protect a restore statement against an asynchronous exception
+        that lands inside the restore itself, and no property demands it: line events
+        inside the two format setters (and whatever they call) and on the statements
+        that call them are not interruption points."""
+        f, depth = frame, 0
+        while f is not None and depth < 6:
+            if f.f_code.co_name in _SETTERS:
+                return False
+            f, depth = f.f_back, depth + 1
+        import linecache
+        text = linecache.getline(frame.f_code.co_filename, frame.f_lineno).strip()
+        return not text.startswith(_SETTER_CALLS)
+
     def _local(self, frame, event, arg):
         if event == "line":
+            if not self._eligible(frame):
+                return self._local
             self.plan.n["line"] += 1
             if not self.plan.fired and self.plan.n["line"] == self.plan.at:
                 self.plan.fired = True
